@@ -542,7 +542,10 @@ impl Value {
                                     .unwrap_or(Value::Null)
                                     .into(),
                                 (Value::String(str), Value::Int(idx)) => {
-                                    match str.get(idx as usize..(idx + 1) as usize) {
+                                    match idx
+                                        .checked_add(1)
+                                        .and_then(|end| str.get(idx as usize..end as usize))
+                                    {
                                         None => Ok(Value::Null),
                                         Some(str) => Ok(Value::String(str.to_string().into())),
                                     }
